@@ -13,6 +13,7 @@ CONSTANTS
   MaxRejects = 0
   Policies = {"ALL"}
   UseCheckpoint = FALSE
+  Batch = 1
   IgnoreTaints = FALSE
 INVARIANTS NoBad_ExpandLagging
 VIEW MCView
